@@ -159,6 +159,16 @@ func resultKinds() []kindSpec {
 		{"pointer", func(b *PB, pkg int) *Ty { return PtrTo(b.Carrier(pkg, "")) }},
 		{"ptr-ptr", func(b *PB, pkg int) *Ty { return PtrTo(PtrTo(b.Carrier(pkg, ""))) }},
 		{"func", func(b *PB, pkg int) *Ty { return FuncRet(b.Carrier(pkg, "")) }},
+		{"func-with-params", func(b *PB, pkg int) *Ty {
+			return &Ty{K: "func", Params: []*Ty{Basic("int"), b.Carrier(pkg, "")}, Elem: b.Carrier(pkg, "")}
+		}},
+		{"func-variadic", func(b *PB, pkg int) *Ty {
+			return &Ty{K: "func", Params: []*Ty{Basic("string"), SliceOf(b.Carrier(pkg, ""))}, Var: true, Elem: b.Carrier(pkg, "")}
+		}},
+		{"chan-of-recv-chan", func(b *PB, pkg int) *Ty { return ChanOf("", ChanOf("<-chan", b.Carrier(pkg, ""))) }},
+		{"send-chan-of-chan", func(b *PB, pkg int) *Ty { return ChanOf("chan<-", ChanOf("", b.Carrier(pkg, ""))) }},
+		{"recv-chan-of-send-chan", func(b *PB, pkg int) *Ty { return ChanOf("<-chan", ChanOf("chan<-", b.Carrier(pkg, ""))) }},
+		{"map-of-func", func(b *PB, pkg int) *Ty { return MapOf(Basic("string"), FuncRet(b.Carrier(pkg, ""))) }},
 		{"ptr-array", func(b *PB, pkg int) *Ty { return PtrTo(ArrayOf(2, b.Carrier(pkg, ""))) }},
 		{"ptr-slice", func(b *PB, pkg int) *Ty { return PtrTo(SliceOf(b.Carrier(pkg, ""))) }},
 		{"slice-of-ptr", func(b *PB, pkg int) *Ty { return SliceOf(PtrTo(b.Carrier(pkg, ""))) }},
